@@ -21,6 +21,8 @@ fn subset_axes() -> Vec<Vec<u32>> {
     ]
 }
 
+const LOCALES: [u16; 2] = [0x409, 0x407];
+
 fn main() {
     let mut run = Run::new();
     let thorough = run.args.thorough();
@@ -68,7 +70,17 @@ fn main() {
             let path = dir.join(format!("a-{idx}.mpq"));
             let desc = json!({"cfg": cfg.to_json(), "nfiles": files.len()});
             run.case(idx, &cfg.class(), desc, |c| {
-                let b = add_files(cfg.builder(), &cfg, &files);
+                // the last two files carry a language id (hash-entry locale field); everything else is neutral
+                let nl = files.len().saturating_sub(2);
+                let mut b = add_files(cfg.builder(), &cfg, &files[..nl]);
+                for (k, f) in files[nl..].iter().enumerate() {
+                    let loc = LOCALES[k % LOCALES.len()];
+                    b = match cfg.enc {
+                        0 => b.add_file_data_with_options(f.data.clone(), &f.name, cfg.method, false, loc),
+                        1 => b.add_file_data_with_encryption(f.data.clone(), &f.name, cfg.method, false, loc),
+                        _ => b.add_file_data_with_encryption(f.data.clone(), &f.name, cfg.method, true, loc),
+                    };
+                }
                 match trap(|| b.build(&path)) {
                     Err(p) => c.violate(format!("build-panic|{}", p.sig()), format!("build panicked: {}", p.msg), cfg.to_json()),
                     Ok(Err(e)) => {
@@ -92,7 +104,8 @@ fn main() {
                         for (k, f) in files.iter().enumerate() {
                             let fp = dir.join(format!("a-{idx}.f{k}"));
                             let _ = std::fs::write(&fp, &f.data);
-                            fl.push(json!({"name": f.name, "len": f.data.len(), "class": f.class, "content": fp.to_string_lossy()}));
+                            let loc = if k >= nl { LOCALES[(k - nl) % LOCALES.len()] } else { 0 };
+                            fl.push(json!({"name": f.name, "len": f.data.len(), "class": f.class, "content": fp.to_string_lossy(), "locale": loc}));
                         }
                         let man = json!({"idx": idx, "cfg": cfg.to_json(), "class": cfg.class(), "enc": cfg.enc, "method": cfg.method, "sector": cfg.sector_size(), "listfile": cfg.listfile, "header": hdr, "files": fl, "archive": path.to_string_lossy()});
                         let _ = std::fs::write(dir.join(format!("a-{idx}.json")), man.to_string());
